@@ -638,17 +638,62 @@ def r02_1_deep(ctx):
     r.done()
 
 
+def _subobjects_fn(P: Program) -> Fn:
+    """the function that yields the (name, type, required) triples: class_subobjects itself, or a helper of the same module that it
+    delegates to (`yield from helper(class_)`, `list(helper(class_))`)"""
+    f = fn(P, 'yatiml.introspection:class_subobjects')
+    seen = set()
+    while f.fi.key not in seen:
+        seen.add(f.fi.key)
+        if any(isinstance(n, ast.Yield) and isinstance(n.value, ast.Tuple) and len(n.value.elts) == 3 for n in f.walk()):
+            return f
+        nxt = None
+        for c in f.walk():
+            if isinstance(c, ast.Call) and isinstance(c.func, ast.Name) and c.func.id in f.fi.module.functions \
+                    and c.func.id != f.fi.name:
+                g = fn(P, 'yatiml.introspection:' + c.func.id)
+                if any(isinstance(n, ast.Yield) for n in g.walk()):
+                    nxt = g
+        if nxt is None:
+            break
+        f = nxt
+    raise AnalysisError('anchor missing: the generator of (name, type, required) triples behind class_subobjects')
+
+
 def class_subobjects_skips(P: Program) -> Tuple[Optional[Set[str]], str]:
     """literal names that class_subobjects skips; None if a skip condition is not a literal equality"""
-    f = fn(P, 'yatiml.introspection:class_subobjects')
+    f = _subobjects_fn(P)
     skips: Set[str] = set()
-    loops = [n for n in f.walk() if isinstance(n, ast.For) and 'getfullargspec(' in f.alpha.text(n.iter)
-             and f.alpha.text(n.iter).rstrip(')').endswith('.args')]
+    ys = [n for n in f.walk() if isinstance(n, ast.Yield) and isinstance(n.value, ast.Tuple) and len(n.value.elts) == 3]
+    loops = [lo for y in ys for lo in enclosing_loops(y, f.node) if isinstance(lo, ast.For)]
+    loops = [lo for lo in loops if 'getfullargspec(' in f.alpha.text(lo.iter) and '.args' in f.alpha.text(lo.iter)]
     if not loops:
         raise AnalysisError('anchor missing: loop over argspec.args in class_subobjects')
     loop = loops[0]
     tgt = loop.target
     var = tgt.elts[1].id if isinstance(tgt, ast.Tuple) else tgt.id
+    # form 2: the loop ranges over a filtered copy of the names: [n for n in ARGS if n not in ('self', ..)]
+    it = loop.iter
+    while isinstance(it, ast.Call) and isinstance(it.func, ast.Name) and it.func.id in ('enumerate', 'list', 'tuple') and it.args:
+        it = it.args[0]
+    srcs = [it]
+    if isinstance(it, ast.Name):
+        srcs = [d.value for d in reaching_defs(f, loop.iter, it.id)] or [it]
+    for s_ in srcs:
+        if isinstance(s_, (ast.ListComp, ast.GeneratorExp)) and len(s_.generators) == 1:
+            g = s_.generators[0]
+            if norm(s_.elt) != norm(g.target):
+                return None, 'the names are transformed by %s' % norm(s_)[:60]
+            for cond in g.ifs:
+                a, ex = tag_equalities(conj_atoms(cond, True), norm(g.target))
+                if ex and not a:
+                    for x in ex:
+                        try:
+                            skips.add(ast.literal_eval(x))
+                        except Exception:
+                            return None, 'non-literal filter %s' % x
+                else:
+                    return None, 'filter `%s` is not an exclusion of literal names' % norm(cond)
     for n in ast.walk(loop):
         if isinstance(n, ast.Continue):
             # guards that arise inside the loop
@@ -679,6 +724,35 @@ def class_subobjects_skips(P: Program) -> Tuple[Optional[Set[str]], str]:
                     if not (ex and not a):
                         return None, 'yield is guarded by `%s`' % norm(b.ast)
     return skips, 'ok'
+
+
+def r02_9_requiredness(ctx, rid='R02.9'):
+    """required iff the parameter has no default: its position in the *full* argument list lies before len(args) - len(defaults)"""
+    P = ctx.P
+    r = ctx.rule(rid, 'class_subobjects reports a parameter as required iff it has no default: the index compared is the position in '
+                      'the full __init__ argument list, the bound is len(that list) - number of defaults', floor=1)
+    f = _subobjects_fn(P)
+    ys = [n for n in f.walk() if isinstance(n, ast.Yield) and isinstance(n.value, ast.Tuple) and len(n.value.elts) == 3]
+    for y in ys:
+        c = f.alpha.rewrite(y.value.elts[2])
+        ok = False
+        why = 'the third component is %s' % norm(c)[:100]
+        if isinstance(c, ast.Compare) and len(c.ops) == 1 and isinstance(c.ops[0], ast.Lt):
+            left, right = norm(c.left), norm(c.comparators[0])
+            if left.startswith('<each:enumerate(') and left.endswith(')>[0]'):
+                X = left[len('<each:enumerate('):-len(')>[0]')]
+                if X.endswith('.args') and 'getfullargspec(' in X and 'for ' not in X:
+                    if ('len(%s)' % X) in right and '.defaults' in right and right.startswith('len(%s) - ' % X):
+                        ok = True
+                    else:
+                        why = 'the bound %s is not len(<all arguments>) - <number of defaults>' % right[:100]
+                else:
+                    why = 'the index runs over %s, not over the full argument list: with a filtered list the defaults are counted ' \
+                          'against the wrong positions (a defaulted _yatiml_extra makes the last required parameter optional)' % X[:80]
+        r.check(ok, 'required = position in argspec.args < len(argspec.args) - len(defaults)', f.key('requiredness'), f.loc(y), why)
+    if not ys:
+        r.fail(f.key('requiredness'), f.loc(), 'no (name, type, required) triple is yielded')
+    r.done()
 
 
 def _ancestors_list(n):
@@ -877,6 +951,27 @@ def _in_tree(loop, f: Fn, ret, text) -> bool:
     return False
 
 
+def init_sites(P: Program) -> List[Tuple[Fn, ast.Call, ast.Call]]:
+    """(function holding the call, the `X.__init__(...)` call of the user class, the statement-level site in Constructor.__call__):
+    the call may have been moved into a private helper method of Constructor that __call__ invokes"""
+    top = fn(P, CTOR + '__call__')
+    out = [(top, c, c) for c in top.calls('__init__') if top.live(c)]
+    if out:
+        return out
+    cls = P.cls('yatiml.constructors:Constructor')
+    for name, m in cls.methods.items():
+        if name in ('__call__', '__init__'):
+            continue
+        g = fn(P, m.key)
+        inner = [c for c in g.calls('__init__') if g.live(c)]
+        if not inner:
+            continue
+        for site in top.calls(name):
+            if top.live(site):
+                out += [(g, c, site) for c in inner]
+    return out
+
+
 def r02_4_keys(ctx):
     P = ctx.P
     r = ctx.rule('R02.4', 'no path in Constructor.__call__ reaches __init__ without a check that rejects non-string keys',
@@ -898,7 +993,8 @@ def r02_4_keys(ctx):
                         checkers.add(name)
     r.check(bool(checkers), 'key-kind checks found in %s' % sorted(checkers), 'yatiml.constructors:Constructor:key-checks',
             'yatiml/constructors.py', 'no method of Constructor rejects mapping keys that are not string scalars')
-    inits = [c for c in f.calls('__init__') if f.live(c)]
+    inits_all = init_sites(P)
+    inits = [site for _, _, site in inits_all]
     through = set()
     for name in checkers:
         for c in f.calls(name):
@@ -911,9 +1007,9 @@ def r02_4_keys(ctx):
                 f.key('init-without-key-check'), f.loc(c),
                 '__init__ can be reached without any check of the mapping keys\' kind: a class taking _yatiml_extra '
                 'would silently accept non-string keys')
-        kw = [a for a in c.args] or [k for k in c.keywords if k.arg is not None]
+    for g_, c, _ in inits_all:
         r.check(not c.args and all(k.arg is None for k in c.keywords), '__init__ is called with ** keywords only',
-                f.key('init-by-name'), f.loc(c), '__init__ receives positional arguments: attributes are matched by position')
+                g_.key('init-by-name'), g_.loc(c), '__init__ receives positional arguments: attributes are matched by position')
     r.done()
 
 
@@ -994,7 +1090,7 @@ def r01_6_deep_recheck(ctx, rid='R01.6'):
     r.check(bool(checkers), 'methods that reject an attribute failing __type_matches: %s' % sorted(checkers),
             'yatiml.constructors:Constructor:type-checkers', 'yatiml/constructors.py',
             'no method of Constructor rejects a constructed attribute that fails __type_matches')
-    inits = [c for c in f.calls('__init__') if f.live(c)]
+    inits = [site for _, _, site in init_sites(P)]
     through = {f.nid(c) for name in checkers for c in f.calls(name) if f.live(c)}
     for c in inits:
         r.check(bool(through) and f.cfg.must_pass(f.cfg.entry, f.nid(c), through), '%s is preceded by the attribute type check on every path'
@@ -1097,7 +1193,7 @@ def r02_6_extraneous(ctx):
             # the check runs before __init__
             c = fn(P, CTOR + '__call__')
             sites = {c.nid(x) for x in c.calls(name) if c.live(x)}
-            for ic in c.calls('__init__'):
+            for ic in [site for _, _, site in init_sites(P)]:
                 if c.live(ic):
                     r.check(c.cfg.must_pass(c.cfg.entry, c.nid(ic), sites), '__init__ is preceded by the extraneous-key check',
                             c.key('init-without-extraneous-check'), c.loc(ic),
@@ -2201,9 +2297,14 @@ def r10_hooks(ctx):
     r4.done()
 
     r5 = ctx.rule('R10.5', 'a SeasoningError raised while savourising is converted to RecognitionError', floor=1)
+    sv = fn(P, 'yatiml.loader:Loader.__savorize')
+    inner = [handler_for(sv, c, {'SeasoningError', 'Exception', 'RuntimeError', 'BaseException'}) for c in hook_calls(sv, '_yatiml_savorize')]
+    inner_ok = bool(inner) and all(h is not None and handler_converts(sv, h)[0] for h in inner)
     for c in sav:
         h = handler_for(f, c, {'SeasoningError', 'Exception', 'RuntimeError', 'BaseException'})
-        if h is None:
+        if h is None and inner_ok:
+            r5.ok('the _yatiml_savorize call itself sits in a converting handler (inside __savorize)')
+        elif h is None:
             r5.fail(f.key('savorize-unhandled'), f.loc(c), 'the savorize call is not inside a handler for SeasoningError')
         else:
             ok, why = handler_converts(f, h)
